@@ -12,6 +12,7 @@ import (
 	"os"
 	"regexp"
 	"sort"
+	"sync"
 	"testing"
 	"testing/synctest"
 	"time"
@@ -62,10 +63,14 @@ type regexCfg struct {
 // key classes of getTagNameFromRegex: no match; named group with text; named group not participating / empty; no named group
 var cfgs = []regexCfg{
 	{regexp.MustCompile(`^(?:app|x(?P<tag>[a-z]*))$`), regexp.MustCompile(`^ann\.`), func(v int) []string {
-		return []string{fmt.Sprintf("app:a%d", v), fmt.Sprintf("team:t%d", v), fmt.Sprintf("x:e%d", v), fmt.Sprintf("ann.k:n%d", v)}
+		// the labels app and xapp both derive the tag name "app": every matched key yields a tag
+		return []string{fmt.Sprintf("app:a%d", v), fmt.Sprintf("app:b%d", v), fmt.Sprintf("team:t%d", v), fmt.Sprintf("x:e%d", v), fmt.Sprintf("ann.k:n%d", v)}
 	}},
 	{nil, regexp.MustCompile(k8s.DefaultAnnotationTagRegex), func(v int) []string {
-		return []string{fmt.Sprintf("svc:s%d", v)}
+		return []string{fmt.Sprintf("svc:s%d", v), fmt.Sprintf("app:c%d", v)}
+	}},
+	{regexp.MustCompile(`^app$`), regexp.MustCompile(k8s.DefaultAnnotationTagRegex), func(v int) []string { // a label and an annotation with one tag name
+		return []string{fmt.Sprintf("app:a%d", v), fmt.Sprintf("svc:s%d", v), fmt.Sprintf("app:c%d", v)}
 	}},
 	{regexp.MustCompile(`^(?P<tag>app)$|^other$`), nil, func(v int) []string {
 		return []string{fmt.Sprintf("app:a%d", v), fmt.Sprintf("other:o%d", v)}
@@ -76,8 +81,10 @@ func podObj(name string, p podv) *core_v1.Pod {
 	pod := &core_v1.Pod{
 		ObjectMeta: meta_v1.ObjectMeta{
 			Name: name, Namespace: "ns",
-			Labels:      map[string]string{"app": fmt.Sprintf("a%d", p.Ver), "xteam": fmt.Sprintf("t%d", p.Ver), "x": fmt.Sprintf("e%d", p.Ver), "other": fmt.Sprintf("o%d", p.Ver)},
-			Annotations: map[string]string{"ann.k": fmt.Sprintf("n%d", p.Ver), "zzz": fmt.Sprintf("z%d", p.Ver), "app": "shadow", k8s.AnnotationPrefix + "svc": fmt.Sprintf("s%d", p.Ver)},
+			Labels: map[string]string{"app": fmt.Sprintf("a%d", p.Ver), "xteam": fmt.Sprintf("t%d", p.Ver), "x": fmt.Sprintf("e%d", p.Ver), "other": fmt.Sprintf("o%d", p.Ver),
+				"xapp": fmt.Sprintf("b%d", p.Ver)},
+			Annotations: map[string]string{"ann.k": fmt.Sprintf("n%d", p.Ver), "zzz": fmt.Sprintf("z%d", p.Ver), "app": "shadow", k8s.AnnotationPrefix + "svc": fmt.Sprintf("s%d", p.Ver),
+				k8s.AnnotationPrefix + "app": fmt.Sprintf("c%d", p.Ver)},
 		},
 		Spec:   core_v1.PodSpec{HostNetwork: p.Host},
 		Status: core_v1.PodStatus{PodIP: ipOf[p.IP], HostIP: "9.9.9.9", Phase: core_v1.PodPhase(p.Phase)},
@@ -111,8 +118,19 @@ func TestCases(t *testing.T) {
 		cfg := cfgs[idx%len(cfgs)]
 		synctest.Test(t, func(t *testing.T) {
 			fakeClient := mainFake.NewSimpleClientset()
-			podsWatch := watch.NewFake()
-			fakeClient.PrependWatchReactor("pods", kube_testing.DefaultWatchReactor(podsWatch, nil))
+			// every Watch call gets a watcher of its own (the reflector opens a new one after a re-list); the object tracker is kept in
+			// step with the events, so that a re-list sees the truth
+			var wmu sync.Mutex
+			var podsWatch *watch.FakeWatcher
+			fakeClient.PrependWatchReactor("pods", func(kube_testing.Action) (bool, watch.Interface, error) {
+				wmu.Lock()
+				defer wmu.Unlock()
+				podsWatch = watch.NewFake()
+				return true, podsWatch, nil
+			})
+			cur := func() *watch.FakeWatcher { wmu.Lock(); defer wmu.Unlock(); return podsWatch }
+			gvr := core_v1.SchemeGroupVersion.WithResource("pods")
+			relist := idx%3 == 2 // deletions are not seen on the watch: it breaks, the pod goes, the reflector lists again
 			p, err := k8s.NewProvider(logger, fakeClient, k8s.PodInformerOptions{ResyncPeriod: 100000 * time.Hour, WatchCluster: true}, cfg.ann, cfg.label)
 			if err != nil {
 				t.Fatal(err)
@@ -125,11 +143,28 @@ func TestCases(t *testing.T) {
 			for i, s := range c.Hist {
 				switch s.Op {
 				case "add":
-					podsWatch.Add(podObj(s.Name, s.Pod))
+					if err := fakeClient.Tracker().Add(podObj(s.Name, s.Pod)); err != nil {
+						res.Note("tracker add: %v", err)
+					}
+					cur().Add(podObj(s.Name, s.Pod))
 				case "update":
-					podsWatch.Modify(podObj(s.Name, s.Pod))
+					if err := fakeClient.Tracker().Update(gvr, podObj(s.Name, s.Pod), "ns"); err != nil {
+						res.Note("tracker update: %v", err)
+					}
+					cur().Modify(podObj(s.Name, s.Pod))
 				case "delete":
-					podsWatch.Delete(podObj(s.Name, s.Pod))
+					if err := fakeClient.Tracker().Delete(gvr, "ns", s.Name); err != nil {
+						res.Note("tracker delete: %v", err)
+					}
+					if relist {
+						// the watch ends with "too old resource version": the reflector has to list again, and finds the pod gone
+						cur().Error(&meta_v1.Status{Status: "Failure", Reason: meta_v1.StatusReasonExpired, Code: 410, Message: "too old resource version"})
+						synctest.Wait()
+						time.Sleep(5 * time.Second) // the reflector's back-off before it lists again
+						res.Hit("deletion-seen-by-relist")
+					} else {
+						cur().Delete(podObj(s.Name, s.Pod))
+					}
 				}
 				synctest.Wait()
 				textual = append(textual, fmt.Sprintf("%s %s %+v %s", s.Op, s.Name, s.Pod, s.IP))
